@@ -34,7 +34,9 @@ def gen_case(rng):
             best = x
             break
     lens[k] = best if best is not None else lens[k]
-    srcs = [{"arg": gen_source_path(rng, used), "content": gen_content(rng, size=x)} for x in lens]
+    # names longer than 8.3 (cut to fit the leader fields) must not change the capacity: a leader is 14 bytes whatever the host name
+    longn = rng.random() < 0.3
+    srcs = [{"arg": gen_source_path(rng, used, longnames=longn), "content": gen_content(rng, size=x)} for x in lens]
     case = {"sources": srcs, "verbose": rng.random() < 0.3, "archive": rng.choice(["t.k7", "o+/t.k7"])}
     r = rng.random()
     if r < 0.25:
@@ -49,7 +51,9 @@ def gen_cases(rng, tier):
     cases = [gen_case(rng) for _ in range(n)]
     for size in (19808, 19809, 19810, 19811):  # one file: 21502 / 21503 / 21504 / 21505 encoded
         cases.append({"sources": [{"arg": "big.bin", "content": {"rand": size, "len": size}}], "verbose": False, "archive": "t.k7", "old": {"rand": 1, "len": 21504}})
-    return cases, {"random": n, "one-file frontier": 4}
+    for size, nm in ((19432, "levels.data"), (19432, "README_FIRST_OF_ALL"), (19433, "notes.text"), (19434, "x.json5")):  # 300-byte intro + this file: 21503 / 21504 / 21505 encoded
+        cases.append({"sources": [{"arg": "intro.bas", "content": {"pat": "41", "len": 300}}, {"arg": nm, "content": {"rand": size, "len": size}}], "verbose": False, "archive": "t.k7"})
+    return cases, {"random": n, "one-file frontier": 4, "long names at the frontier": 4}
 
 
 def run_case(case, ctx):
